@@ -38,7 +38,7 @@ type Engine struct {
 	defines        map[string]*define
 }
 
-func loadEngine(repo string, contractDir string) (*Engine, error) {
+func loadEngine(repo string, contractDir string, prop ...string) (*Engine, error) {
 	overlay := map[string][]byte{}
 	var cfiles []string
 	// contracts: /repo copy when present, else the mirror injected by overlay
@@ -112,6 +112,9 @@ func loadEngine(repo string, contractDir string) (*Engine, error) {
 			e.defines[k] = d
 		}
 		for _, c := range cs {
+			if len(prop) > 0 {
+				c.filterProperty(prop[0])
+			}
 			if old, dup := e.contracts[c.Key]; dup {
 				// several blocks for one function are merged (clauses grouped by property)
 				old.Requires = append(old.Requires, c.Requires...)
